@@ -238,8 +238,13 @@ fn run_pool(params: BrotliEncoderParams, data: Vec<u8>, cap: usize, t: usize, po
     let got = rx.recv().unwrap_or_else(|_| Err("PANIC(helper vanished)".to_string()));
     POOL_ACTIVE.store(false, Ordering::SeqCst);
     *WORKER_PANIC.lock().unwrap() = None;
-    let dead = got.is_err();
-    if !dead {
+    // a worker died, or the call itself unwound and left its batch behind: the pool is not reused
+    let dead = match got {
+        Err(_) => true,
+        Ok(ref o) => o.res.starts_with("PANIC"),
+    };
+    let hung = got.is_err();
+    if !hung {
         let _ = h.join();
     }
     (got, dead)
